@@ -302,21 +302,23 @@ def setitem (s : PState K V) (k : K) (v : V) : Option (PState K V) :=
     let root : Branch K (Tree K V s.height) := { id := 0, keys := [sep], children := [l, r] }
     some { cap := s.cap, height := s.height + 1, root := root, head := s.head, nextId := nid, cache := s.cache }
 
+/-- root collapse at the end of the root frame of `_delete_recursive`:
+    `if node == self.root and not node.is_leaf() and len(node.children) == 1: self.root = node.children[0]` -/
+def collapseRoot : (h : Nat) → Tree K V h → (Σ h', Tree K V h')
+  | 0, t => ⟨0, t⟩
+  | h+1, (b : Branch K (Tree K V h)) =>
+    match b.children with
+    | [c] => ⟨h, c⟩
+    | _ => ⟨h+1, (b : Branch K (Tree K V h))⟩
+
 /-- `__delitem__`: `some (s', false)` = KeyError -/
 def delitem (cfg : Cfg) (s : PState K V) (k : K) : Option (PState K V × Bool) :=
-  match s.height, s.root, s with
-  | 0, root, s =>
-    (deleteRec cfg s.cap 0 root k).map fun r =>
-      ({ cap := s.cap, height := 0, root := r.1, head := s.head, nextId := s.nextId, cache := s.cache }, r.2)
-  | h+1, root, s =>
-    match deleteRec cfg s.cap (h+1) root k with
-    | none => none
-    | some (t, false) => some ({ cap := s.cap, height := h+1, root := t, head := s.head, nextId := s.nextId, cache := s.cache }, false)
-    | some (t, true) =>
-      -- root collapse: `if node == self.root and not node.is_leaf() and len(node.children) == 1`
-      match (t : Branch K (Tree K V h)).children with
-      | [c] => some ({ cap := s.cap, height := h, root := c, head := s.head, nextId := s.nextId, cache := s.cache }, true)
-      | _ => some ({ cap := s.cap, height := h+1, root := t, head := s.head, nextId := s.nextId, cache := s.cache }, true)
+  match deleteRec cfg s.cap s.height s.root k with
+  | none => none
+  | some (t, false) => some ({ s with root := t }, false)
+  | some (t, true) =>
+    some ({ cap := s.cap, height := (collapseRoot s.height t).1, root := (collapseRoot s.height t).2,
+            head := s.head, nextId := s.nextId, cache := s.cache }, true)
 
 /-- lookup of the stored entry: the descent of `get` / `__contains__` -/
 def findRec : (h : Nat) → Tree K V h → K → Option (Option (K × V))
@@ -345,7 +347,7 @@ def chainFrom (ls : List (Leaf K V)) : Nat → Nat → Res (List (Leaf K V))
       | some l => (chainFrom ls f l.next).map (l :: ·)
 
 def chain (s : PState K V) : Res (List (Leaf K V)) :=
-  chainFrom (Tree.leaves s.height s.root ++ []) ((Tree.leaves s.height s.root).length + 1) s.head
+  chainFrom (Tree.leaves s.height s.root) ((Tree.leaves s.height s.root).length + 1) s.head
 
 /-- `__len__` -/
 def len (s : PState K V) : Res Nat := (chain s).map fun c => (c.map (fun l => l.keys.length)).sum
@@ -359,26 +361,27 @@ def routeLeaf : (h : Nat) → Tree K V h → K → Option (Leaf K V)
     | some c => routeLeaf h c k
     | none => none
 
+/-- the exclusive end test of `items`: stop at the first key `>= end_key` -/
+def cutStop (stop : Option K) (all : List (K × V)) : List (K × V) :=
+  match stop with
+  | none => all
+  | some e => all.takeWhile (fun kv => decide (ord kv.1 < ord e))
+
+/-- the scan of `items`: from index `idx` of the leaf with serial `id`, along the chain -/
+def itemsFrom (s : PState K V) (id idx : Nat) (stop : Option K) : Res (List (K × V)) :=
+  (chainFrom (Tree.leaves s.height s.root) ((Tree.leaves s.height s.root).length + 1) id).map fun c =>
+    cutStop stop (match c with
+      | [] => []
+      | l :: rest => (l.keys.zip l.vals).drop idx ++ rest.flatMap (fun l => l.keys.zip l.vals))
+
 /-- `items(start_key, end_key)` -/
 def items (s : PState K V) (start stop : Option K) : Res (List (K × V)) :=
-  let from? : Res (Option (Nat × Nat)) :=
-    match start with
-    | none => .ok (some (s.head, 0))
-    | some a =>
-      match routeLeaf s.height s.root a with
-      | none => .panic
-      | some l => .ok (some (l.id, lowerBound l.keys a))
-  from?.bind fun p =>
-    match p with
-    | none => .ok []
-    | some (id, idx) =>
-      (chainFrom (Tree.leaves s.height s.root) ((Tree.leaves s.height s.root).length + 1) id).map fun c =>
-        let all : List (K × V) := match c with
-          | [] => []
-          | l :: rest => (l.keys.zip l.vals).drop idx ++ rest.flatMap (fun l => l.keys.zip l.vals)
-        match stop with
-        | none => all
-        | some e => all.takeWhile (fun kv => decide (ord kv.1 < ord e))
+  match start with
+  | none => itemsFrom s s.head 0 stop
+  | some a =>
+    match routeLeaf s.height s.root a with
+    | none => .panic
+    | some l => itemsFrom s l.id (lowerBound l.keys a) stop
 
 /-! ## bulk load -/
 
